@@ -235,13 +235,17 @@ class Gen:
                         name = self.fresh('j')
                 # a colliding counter does not occur in its own bounds (the order "assign start, then evaluate
                 # the upper bound" is an implementation detail the language does not define)
-                benv0 = [{x: t for x, t in sc.items() if not (named and x == name)} for sc in env]   # the counter's own name stays out of bounds and step
+                benv0 = [{x: t for x, t in sc.items() if not (named and x == name)} for sc in env]   # the counter's own name stays out of the bounds
                 lit_only = 2.0 if collide else 0.7      # (calls could read the counter through a capture)
                 a = ('int', r.randint(0, 2)) if r.random() < lit_only else self.expr(benv0, 'int', 1, in_fn)
                 b = ('int', r.randint(1, 5)) if r.random() < lit_only else self.expr(benv0, 'int', 1, in_fn)
                 step = None
                 if r.random() >= 0.5:
                     ivs_ = [x for x in self.vars_of(benv0, 'int')]
+                    if named and r.random() < 0.5:
+                        # the step is evaluated inside the loop, after every iteration: there the counter's name is the
+                        # counter (Lang/Eval.v SFrom, Compile.v fv_s), whatever the name means outside the loop
+                        ivs_ = ivs_ + [name, name]
                     kk = r.random()
                     if kk < 0.45 or not ivs_:
                         step = ('int', r.randint(1, 3))
